@@ -23,4 +23,5 @@ PROPERTIES
   AtMostOncePerWindow
   ForwardAgain
   NotRememberedIfNotSent
+  MemoryOnlyByRequests
 CHECK_DEADLOCK FALSE
